@@ -345,6 +345,60 @@ impl Exec {
         idx
     }
 
+    /// A client that gives up on its first request: the request future is dropped when a second
+    /// gate opens before the reply arrived (a caller-side timeout / cancelled call); it then issues
+    /// the remaining requests normally. An abandoned request is logged with the reply "Abandoned".
+    pub fn add_client_abandoning(&mut self, first: Src, rest: Vec<Src>) -> usize {
+        let idx = self.clients.len();
+        let task = idx + 1;
+        let mut handle = self
+            .handle
+            .as_ref()
+            .unwrap_or_else(|| machinery("add_client without a control handle"))
+            .clone();
+        let w = self.w.clone();
+        let fut = async move {
+            let mut all = vec![first];
+            all.extend(rest);
+            for (seq, opts) in all.into_iter().enumerate() {
+                let gate = {
+                    let mut g = w.lock().unwrap();
+                    g.cur_task = task;
+                    g.new_op(OpKind::Gate, idx as u64).1
+                };
+                gate.await;
+                w.lock().unwrap().log.push(Obs::Ctl(CtlObs::Sent { client: idx, seq, opts }));
+                let reply = if seq == 0 {
+                    let give_up = {
+                        let mut g = w.lock().unwrap();
+                        g.cur_task = task;
+                        g.new_op(OpKind::Gate, idx as u64).1
+                    };
+                    let call = handle.start_update_check(CheckOptions { source: opts.into() });
+                    futures::pin_mut!(call);
+                    match futures::future::select(call, give_up).await {
+                        futures::future::Either::Left((r, _)) => match r {
+                            Ok(r) => format!("{r:?}"),
+                            Err(_) => "Gone".to_string(),
+                        },
+                        futures::future::Either::Right(_) => "Abandoned".to_string(),
+                    }
+                } else {
+                    match handle.start_update_check(CheckOptions { source: opts.into() }).await {
+                        Ok(r) => format!("{r:?}"),
+                        Err(_) => "Gone".to_string(),
+                    }
+                };
+                w.lock().unwrap().log.push(Obs::Ctl(CtlObs::Reply { client: idx, seq, reply }));
+            }
+        };
+        self.clients.push(Client {
+            fut: Some(Box::pin(fut)),
+            wake: new_flag(),
+        });
+        idx
+    }
+
     pub fn client_done(&self, i: usize) -> bool {
         self.clients[i].fut.is_none()
     }
